@@ -79,6 +79,12 @@ CHECKS.update({
              ref="4 C15", note=LEVEL_NOTE_REF + " abi_stable's loader; the occurrence-counting reading is calibrated at run start rather than assumed."),
 })
 
+CHECKS.update({
+ "C04": dict(tech="exhaustive key-table enumeration + metamorphic testing (transposing move orders, single-component variants, clock-only variants) + model-based test of the repetition table",
+             text="Exploration, exhaustive for the 794 keys (non-zero, pairwise distinct); generated playouts compare incrementally maintained hashes with from-scratch hashes, reorderings of four plies that the reference accepts and that reach the same key must give equal boards and equal zobrist/std hashes, single-component variants must be unequal and hash differently, clock-only variants must be equal and hash equally, and ThreeFold::add/get is compared with a map keyed by the reference position key.",
+             ref="4 C04", note=LEVEL_NOTE_REF),
+})
+
 NOT_YET = {
 }
 
